@@ -67,6 +67,9 @@ type SkelOpts struct {
 	Returns bool
 	// FuncLits: descend into function literals (closures) — default true when false is not forced.
 	SkipFuncLits bool
+	// Idents: plain (unqualified) function calls that count, by name (e.g. a package-local
+	// helper `indexValue(...)`); recorded as the bare name. Default: none.
+	Idents map[string]bool
 }
 
 // SkelVerbsAPI is the usual verb set: the client.Client verbs and the helpers built on them.
@@ -134,6 +137,10 @@ func SkelOf(relFile, recvType, fn string, o SkelOpts) ([]string, error) {
 				}
 				return true
 			case *ast.CallExpr:
+				if id, ok := t.Fun.(*ast.Ident); ok && o.Idents[id.Name] {
+					out = append(out, id.Name)
+					return true
+				}
 				sel, ok := t.Fun.(*ast.SelectorExpr)
 				if !ok {
 					return true
